@@ -438,6 +438,10 @@ class PDBParser(LineParser):
                 mol2 = mol
                 self.molecules.append(mol)
                 id2idxs.append({mol.nodes[idx]['atomid']: idx for idx in mol})
+                # Merging renumbers the nodes, the node keys found above are
+                # those of the separate molecules.
+                atomidx0 = id2idxs[-1][atomid0]
+                atomidx = id2idxs[-1][atomid]
 
             dist = distance(mol.nodes[atomidx0]['position'],
                             mol2.nodes[atomidx]['position'])
